@@ -56,7 +56,7 @@ PROBES = ['start_decoded', 'start_handbuilt', 'edited', 'explicit_nondefault_top
 STEPS = ['reify_edges', 'dereify_edges', 'reify_attributes', 'indicate_branches', 'restart']
 CLI_ORDER = ['reify_edges', 'dereify_edges', 'reify_attributes', 'indicate_branches']
 EDITS = ['add_attr', 'add_edge', 'add_node', 'remove_triple', 'set_top', 'swap_triples', 'rotate', 'shuffle',
-         'move_triple', 'drop_marker', 'drop_triple_markers', 'drop_layout_markers', 'drop_all_epidata']
+         'move_triple', 'drop_marker', 'drop_triple_markers', 'drop_layout_markers', 'drop_all_epidata', 'rename_var']
 
 
 def plan(rng, idx, tier):
@@ -83,7 +83,19 @@ def plan(rng, idx, tier):
             if s == 'indicate_branches' and s in prog:
                 s = pr.pick(['reify_edges', 'dereify_edges', 'reify_attributes'])
             prog.append(s)
-    return {'property': ID, 'model': spec, 'start': start, 'edits': edits, 'program': prog}
+    t = {'property': ID, 'model': spec, 'start': start, 'edits': edits, 'program': prog}
+    # a user's code looks at the graph (queries) between its edits, and edits results of transformations too
+    orng = rng.sub('observe')
+    for e in edits:
+        if orng.chance(0.35):
+            e['observe'] = True
+    mr = rng.sub('mid')
+    if len(prog) >= 2 and mr.chance(0.25):
+        t['mid_edits'] = {'at': 1 + mr.randrange(len(prog) - 1),
+                          'edits': [{'op': mr.pick(EDITS), 'a': mr.randrange(1000), 'b': mr.randrange(1000),
+                                     'c': mr.randrange(1000), 'observe': mr.chance(0.5)}
+                                    for _ in range(1 + mr.randrange(3))]}
+    return t
 
 
 def _dangling(g, vars_before):
@@ -129,18 +141,28 @@ def execute(trace):
         return res
     res.hit('probe.start_' + trace['start']['kind'])
     edit_kinds = []
-    for op in trace.get('edits', []):
-        snap = copy.deepcopy(g)
-        vars_before = set(lc._vars(g))
-        done = lc.apply_op(g, op)
-        if done is None:
-            continue
-        f = lc.state_facts(g)
-        if not (f['well_formed'] and f['connected'] and f['top_is_variable']) or _dangling(g, vars_before):
-            g = snap          # an edit that breaks the precondition is not part of this property's domain
-            continue
-        edit_kinds.append(done)
-        res.hit('fault.' + done if done.startswith('drop') else 'step.edit')
+
+    def apply_edits(g, ops):
+        """Edits inside the property's domain are kept, the others rolled back."""
+        for op in ops:
+            if op.get('observe'):
+                # what user code does between edits: look at the graph through its query API
+                g.variables(), g.edges(), g.attributes(), g.reentrancies(), g.top
+                res.hit('probe.observed_between_edits')
+            snap = copy.deepcopy(g)
+            vars_before = set(lc._vars(g))
+            done = lc.apply_op(g, op)
+            if done is None:
+                continue
+            f = lc.state_facts(g)
+            if not (f['well_formed'] and f['connected'] and f['top_is_variable']) or _dangling(g, vars_before):
+                g = snap          # an edit that breaks the precondition is not part of this property's domain
+                continue
+            edit_kinds.append(done)
+            res.hit('fault.' + done if done.startswith('drop') else 'step.edit')
+        return g
+
+    g = apply_edits(g, trace.get('edits', []))
     if edit_kinds:
         res.hit('probe.edited')
     f0 = lc.state_facts(g)
@@ -154,7 +176,11 @@ def execute(trace):
         return {'triples': [list(map(str, t)) for t in h.triples], 'top': h.top, 'markers': lc.canon_markers(h)}
 
     prev_kind = None
+    mid = trace.get('mid_edits') or {}
     for i, step in enumerate(trace['program']):
+        if mid and mid.get('at') == i:
+            g = apply_edits(g, mid.get('edits', []))
+            res.hit('probe.edited_between_transformations')
         before = g
         before_triples = list(g.triples)
         before_top = g.top
@@ -260,6 +286,22 @@ def execute(trace):
                 res.violate('indicate-branches', 'removal-differs', expected=[list(map(str, t)) for t in before_triples],
                             got=[list(map(str, t)) for t in rest], **base)
                 break
+            if trace['start']['kind'] == 'decoded' and set(edit_kinds) <= {'add_attr', 'add_edge', 'rename_var'} and i > 0 \
+                    and 'restart' not in trace['program'][:i] and len(before_vars) > 1:
+                # markers that come from parsing and were only ever touched by the marker-migrating transformations
+                # (plus attributes / re-entrancies added without markers, which need none) still describe a complete
+                # layout in which every node but the top is nested exactly once: each of them must get exactly one
+                # top-role triple - composition clause, e.g. dereify then indicate (the tool's order).  Which node
+                # is named as the parent is not judged here: dereify_edges leaves POPs behind that can move a
+                # definition site (layout, not content; see DESIGN 13)
+                res.hit('probe.indicate_after_transformations')
+                kids = sorted((t[2] for t in added), key=str)
+                want_kids = sorted((v for v in before_vars if v != before_top), key=str)
+                if kids != want_kids:
+                    res.violate('indicate-branches', 'not-one-top-role-triple-per-nested-node',
+                                expected_children=list(map(str, want_kids)), got=[list(map(str, t)) for t in added],
+                                flags=_flags(before_triples, before_vars, h, mref, step), **base)
+                    break
             if trace['start']['kind'] == 'decoded' and not edit_kinds and i == 0:
                 # freshly decoded: every variable but the top is a nested node, written exactly once
                 want_n = len(before_vars) - 1
@@ -281,6 +323,17 @@ def execute(trace):
     if len(trace['program']) >= 2 or edit_kinds or trace['start']['kind'] != 'decoded':
         res.cover.add(digest.dumps([spec['kind'], trace['start']['kind'], sorted(set(edit_kinds)), trace['program']]))
     return res
+
+
+def _nested_links_of_tree(node, top_role):
+    """(parent variable, top role, nested variable) for every node written inside another node of a penman Tree."""
+    var, branches = node
+    out = []
+    for role, tgt in branches:
+        if isinstance(tgt, tuple):
+            out.append((var, top_role, tgt[0]))
+            out.extend(_nested_links_of_tree(tgt, top_role))
+    return out
 
 
 def _nested_links(node, top_role):
@@ -310,6 +363,14 @@ def _flags(before_triples, before_vars, h, mref, step):
 def shrink(trace):
     yield from list_candidates(trace, ['program'])
     yield from list_candidates(trace, ['edits'])
+    if trace.get('mid_edits'):
+        yield with_path(trace, ['mid_edits'], None)
+        yield from list_candidates(trace, ['mid_edits', 'edits'])
+        if trace['mid_edits'].get('at', 0) > 1:
+            yield with_path(trace, ['mid_edits', 'at'], trace['mid_edits']['at'] - 1)
+    for i, op in enumerate(trace.get('edits', [])):
+        if op.get('observe'):
+            yield with_path(trace, ['edits', i, 'observe'], False)
     st = trace['start']
     if st['kind'] == 'handbuilt':
         triples = st['content']['triples']
